@@ -112,11 +112,11 @@ Definition plain_edit {A} (e : edit) (old new : list A) : list A :=
 Lemma map_upd_nth : forall A B (f : A -> B) l i a, map f (upd_nth i (fun _ => a) l) = upd_nth i (fun _ => f a) (map f l).
 Proof. induction l; destruct i; simpl; intros; auto. f_equal. auto. Qed.
 
-Lemma map_assign_all : forall (f : aid -> Z) prs old,
+Lemma map_assign_all : forall (f : aid -> pay) prs old,
   map f (assign_all old prs) = assign_allT (map f old) (map (fun p => (fst p, f (snd p))) prs).
 Proof. induction prs as [|[i a] t]; simpl; intros; auto. rewrite IHt, map_upd_nth. auto. Qed.
 
-Lemma map_pick : forall (f : aid -> Z) idxs old, map f (pick old idxs) = pickT (map f old) idxs.
+Lemma map_pick : forall (f : aid -> pay) idxs old, map f (pick old idxs) = pickT (map f old) idxs.
 Proof.
   unfold pick, pickT. induction idxs; simpl; intros; auto. rewrite map_app, IHidxs. f_equal.
   rewrite nth_error_map. destruct (nth_error old a); auto.
@@ -126,7 +126,7 @@ Lemma map_combine_snd : forall A B C (f : B -> C) (l1 : list A) (l2 : list B),
   map (fun p => (fst p, f (snd p))) (combine l1 l2) = combine l1 (map f l2).
 Proof. induction l1; destruct l2; simpl; auto. f_equal. auto. Qed.
 
-Lemma map_apply_edit : forall (f : aid -> Z) e old ids,
+Lemma map_apply_edit : forall (f : aid -> pay) e old ids,
   map f (apply_edit e old ids) = plain_edit e (map f old) (map f ids).
 Proof.
   destruct e; simpl; intros.
@@ -168,7 +168,7 @@ Proof.
   intros. unfold extend_plan. destruct c; [destruct b|..]; rewrite ?map_map; try apply src_tag_memo; auto.
 Qed.
 
-Definition payload (w : world) (h : hid) : list Z :=
+Definition payload (w : world) (h : hid) : list pay :=
   match nth_error (objs w) h with Some o => map (tag_of w) (obj_items o) | None => [] end.
 
 Lemma firstn_skipn_all : forall A (P X : list A), firstn (length P) P ++ X ++ skipn (length P) P = P ++ X.
